@@ -72,6 +72,9 @@ def _weights(rng: Rng, n, kind):
         if not any(w):
             w[rng.randrange(n)] = Fraction(1)
         return w
+    if kind == "const":  # all weights equal: non-unit constants (and explicit ones), tiny and large
+        c = rng.choice([Fraction(1, 4), Fraction(7), Fraction(1, 2), Fraction(3), Fraction(1, 64), Fraction(100), Fraction(1)])
+        return [c] * n
     if kind == "sparse":  # mostly zero: singular normal equations
         w = [Fraction(0)] * n
         for _ in range(max(1, n // 6)):
@@ -135,13 +138,14 @@ def _case(rng: Rng, d, tier, mode=None):
         dims.append(dict(nseg=nseg, p=p, lam=rs(_lam(rng)), x=[rs(v) for v in x], wide=wide, dmin=rs(dmin), dmax=rs(dmax)))
     grids = [[F(v) for v in dd["x"]] for dd in dims]
     n = int(np.prod([len(g) for g in grids]))
-    wk = rng.choice(["none", "binary", "real", "real", "binary", "sparse"]) if d == 1 else rng.choice(["none", "binary", "real"])
+    wk = rng.choice(["none", "binary", "real", "real", "const", "sparse"]) if d == 1 else rng.choice(["none", "binary", "real", "const"])
     w = _weights(rng, n, wk)
     yk = rng.choice(["rand", "smooth", "noisy", "noisy", "zeros"] if rng.random() < 0.1 else ["rand", "smooth", "noisy", "noisy"])
     y = _responses(rng, grids, yk)
     c = dict(kind=f"fit{d}", d=d, ord=rng.randint(1, 3), dims=dims, y=[rs(v) for v in y], w=None if w is None else [rs(v) for v in w],
              wk=wk, yk=yk, int_opts=(d > 1 and rng.random() < 0.15), history=rng.random() < 0.35,
-             default_penalty=rng.random() < 0.08, a=rs(rng.dyadic(-3, 3, 2)), c=rs(rng.dyadic(-3, 3, 2)), sub=rng.randint(0, 10 ** 6))
+             default_penalty=rng.random() < 0.08, a=rs(rng.dyadic(-3, 3, 2)), c=rs(rng.dyadic(-3, 3, 2)), sub=rng.randint(0, 10 ** 6),
+             wscale=rs(rng.choice([Fraction(1, 4), Fraction(7), Fraction(1, 32), Fraction(3), Fraction(64)])))
     if c["int_opts"]:
         for dd in c["dims"][1:]:
             dd["nseg"], dd["p"] = c["dims"][0]["nseg"], c["dims"][0]["p"]
@@ -297,6 +301,55 @@ def _history(ps, case, xs):
     return bad
 
 
+def _rejected_calls(ps, case, xs, y, w, y_hat0, pred0):
+    """Calls that the code rejects (exception), made on the fitted object; after each the fitted values must be
+    unchanged and predict(fit grid) must still return them.  A call that is accepted ends the sequence."""
+    d = case["d"]
+    shape = list(y.shape)
+    span = [x[-1] - x[0] for x in xs]
+    shifted = [x + 2.0 * s for x, s in zip(xs, span)]
+    kw = {}
+    if any(dd["wide"] for dd in case["dims"]):
+        kw["domain_min"] = [float(F(dd["dmin"])) for dd in case["dims"]]
+        kw["domain_max"] = [float(F(dd["dmax"])) for dd in case["dims"]]
+    arg = lambda g: g[0] if d == 1 else list(g)  # noqa: E731
+    wbad = np.ones([shape[0] + 1] + shape[1:])
+    calls = [
+        ("response_shape_mismatch_other_range", lambda o: o.fit(y[:-1] if shape[0] > 1 else np.concatenate([y, y]), arg(shifted))),
+        ("weights_shape_mismatch", lambda o: o.fit(y, arg(xs), sample_weights=wbad, **kw)),
+        ("grid_list_too_short", lambda o: o.fit(y, list(xs)[:-1] if d > 1 else [], **kw)),
+        ("penalty_length_mismatch", lambda o: o.fit(y, arg(xs), penalty=tuple([1.0] * (d + 1)), **kw)),
+        ("other_dimension", lambda o: o.fit(np.stack([y, y], axis=-1), arg(xs), **kw)),
+    ]
+    res = []
+    obj = ps
+    dirty = False
+    for name, call in calls:
+        if name == "other_dimension":  # on its own freshly fitted object, so that the other kinds stay independent
+            obj = _fit(_new(case), case, y, xs, w)
+        elif dirty:
+            continue
+        try:
+            call(obj)
+            res.append(dict(kind=name, outcome="accepted"))  # not rejected: the state legitimately changed
+            dirty = True
+            continue
+        except Exception as e:  # noqa: BLE001
+            r = dict(kind=name, outcome="error:" + err_class(e))
+        try:
+            same = bool(np.array_equal(np.asarray(obj.y_hat), y_hat0, equal_nan=True))
+            p1 = np.asarray(obj.predict(arg(xs)), dtype=float).ravel()
+            sc = max(np.abs(y_hat0).max(), 1e-300)
+            r["state"] = "ok" if same and np.abs(p1 - pred0).max() <= 1e-12 * sc else (
+                "y_hat changed" if not same else f"predict(fit grid) moved by {np.abs(p1 - pred0).max() / sc:.3g} (relative)")
+        except Exception as e:  # noqa: BLE001
+            r["state"] = f"predict raises {err_class(e)}: {str(e)[:80]}"
+        res.append(r)
+        if r["state"] != "ok" and obj is ps:
+            dirty = True
+    return res
+
+
 def run_impl(case):
     import warnings
 
@@ -335,6 +388,16 @@ def run_impl(case):
     # ---- dense Kronecker reference (independent NumPy code)
     ref = _dense_ref(Bs, w, y, [float(F(dd["lam"])) for dd in case["dims"]], case["ord"])
     out["ref"] = {k: (v.tolist() if isinstance(v, np.ndarray) else v) for k, v in ref.items()}
+    # ---- scaling law of the penalised criterion: fit(c·w, c·penalties) = fit(w, penalties)
+    if not case.get("default_penalty"):
+        cs = float(F(case.get("wscale", "1/4")))
+        sc = dict(case)
+        sc["dims"] = [dict(dd, lam=rs(F(dd["lam"]) * F(case.get("wscale", "1/4")))) for dd in case["dims"]]
+        fs = _fit(_new(case), sc, y, xs, cs * (np.ones(shape) if w is None else w))
+        out["scaled"] = dict(y_hat=np.asarray(fs.y_hat).ravel().tolist(), hat=np.asarray(fs.diagnostics["hat_matrix"]).ravel().tolist())
+    # ---- rejected calls on the fitted object: the fitted state must stay usable and consistent
+    if case["sub"] % 5 < 3:
+        out["rejected"] = _rejected_calls(ps, case, xs, y, w, np.asarray(ps.y_hat).copy(), np.array(out["pred_fit"]))
     # ---- linearity, zero weights, polynomial trend: further fits with fresh objects
     rng = Rng(f"aux-{case['sub']}")
     a, c = float(F(case["a"])), float(F(case["c"]))
@@ -575,6 +638,14 @@ def oracle(case, impl):
         bad("linear", f"fit(a y1 + c y2) differs from a fit(y1) + c fit(y2) by {e:.3g} (relative)", causes)
     if well and not np.allclose(np.array(lin["h2"]), hat, rtol=0, atol=max(tol, 1e-9)):
         bad("linear", "the hat diagonal depends on the responses", causes)
+    # scaling law: multiplying all weights and all penalties by the same constant changes nothing
+    if "scaled" in impl:
+        e = np.abs((np.array(impl["scaled"]["y_hat"]) - y_hat)[pos]).max() / max(np.abs(y_hat).max(), 1e-300)
+        if not e <= ltol:
+            bad("weights_penalty_scaling", f"fit(c·w, c·penalties) differs from fit(w, penalties) by {e:.3g} (relative), c = {case.get('wscale')}, "
+                f"weights kind {case['wk']}", causes)
+        elif not np.allclose(np.array(impl["scaled"]["hat"]), hat, rtol=0, atol=max(tol, 1e-9)):
+            bad("weights_penalty_scaling", f"the hat diagonal changes under the common scaling c = {case.get('wscale')} of weights and penalties", causes)
     # zero weights
     if "zero" in impl:
         e = np.abs((np.array(impl["zero"]) - y_hat)[pos]).max() / max(np.abs(y_hat).max(), 1e-300)
@@ -602,6 +673,11 @@ def _oracle_predict(case, impl, vs, bad, y_hat, causes):
     e = np.abs(np.array(impl["pred_nodes"]) - np.array(impl["nodes_ref"])).max() / max(np.abs(y_hat).max(), 1e-300)
     if not e <= 1e-10:
         bad("predict_fit_grid", f"predict on a subset of the fitting grid differs from the fitted values there by {e:.3g}", ["query_subset"])
+    # rejected calls must leave the fitted state usable and consistent
+    for r in impl.get("rejected", []):
+        if r["outcome"].startswith("error") and r.get("state") != "ok":
+            bad("failed_call_state", f"after a rejected fit ({r['kind']}: {r['outcome']}) the fitted object is inconsistent: {r['state']}",
+                causes + ["rejected_call_" + r["kind"]])
     # earlier fits on the same object
     if impl.get("hist_bad"):
         bad("history", impl["hist_bad"], causes)
@@ -635,6 +711,8 @@ def classify(case, impl):
         tags.append("explicit-domain")
     if case.get("history"):
         tags.append("history:refit")
+    for r in (impl or {}).get("rejected", []):
+        tags.append("rejected:" + r["kind"] + ":" + r["outcome"].split(":")[0])
     for dd in case["dims"]:
         e = F(dd["lam"])
         tags.append("penalty:" + ("<=2^-8" if e <= Fraction(1, 256) else ">=2^8" if e >= 256 else "moderate"))
